@@ -130,6 +130,8 @@ pub struct DocJudgement {
     pub may_fail: bool,
     pub skipped_doc: bool,
     pub faulted: bool,
+    /// single-script mode: scrut refused the document although nothing in it calls for that
+    pub refused_without_cause: bool,
 }
 
 /// the stream the expectations are applied to, after the documented transformations
@@ -397,6 +399,15 @@ impl<'a> Ctx<'a> {
             j.run_fail = true;
             j.stop = Some(Stop::RunFail(0));
             j.faulted = !self.facts.spawn_failed.is_empty() || self.facts.fault_kinds.iter().any(|k| k.starts_with("fs_error"));
+            // this mode has one configuration for the whole script: test cases whose settings
+            // differ (also: Markdown and Cram test cases mixed by prepend / append) are refused
+            let setting = |d: &Doc, t: &Test| {
+                let c = t.cfg.over(&d.defaults).over(&main.defaults);
+                (c.detached, c.keep_crlf, c.output_stream, c.skip_code, c.wait.clone(), c.env.clone(), sc.cram_semantics(d))
+            };
+            let first = setting(list[0].0, list[0].1);
+            let mixed = list.iter().any(|(d, t)| setting(d, t) != first);
+            j.refused_without_cause = !j.faulted && !per_test_timeout && !mixed;
             for tj in j.tests.iter_mut() {
                 tj.allowed = Allowed::NotSuccess;
                 tj.class = "passed-though-never-run";
@@ -588,6 +599,28 @@ impl<'a> Ctx<'a> {
             let j = self.judge_doc(d.doc);
             if j.run_fail {
                 run_aborted = true;
+            }
+            // (only the document scrut names as the failing one: the run ends with the first failure)
+            let named = self
+                .obs
+                .cli
+                .as_ref()
+                .and_then(|c| c.doc_path.get(&self.sc.docs[d.doc].path))
+                .map(|p| self.obs.stderr.contains(&format!("failing in {:?}", p)))
+                .unwrap_or(false);
+            if j.refused_without_cause && named && self.sc.tier == Tier::Cli && self.obs.sim_abort.is_none() && self.obs.exit_status == Some(1) {
+                for prop in ["C13", "C20"] {
+                    out.push(v(
+                        prop,
+                        "execution-error-without-cause",
+                        j.tests.first().map(|t| t.nonce.as_str()),
+                        format!(
+                            "document {}: scrut gave up before running anything although the document is well-formed and nothing failed: {}",
+                            self.sc.docs[d.doc].path,
+                            self.obs.stderr.lines().find(|l| l.contains("Error")).unwrap_or("").chars().take(300).collect::<String>()
+                        ),
+                    ));
+                }
             }
             // the executor gave up although every process ended with an exit code and no fault
             // was injected: nothing got recorded for commands that did complete
